@@ -260,7 +260,7 @@ def run(sh, spec):
         for _ in range(spec.get("sampled", 0)):
             n = sh.rng.choice((5, 6))
             judge_soup(sh, api, errs, fid, fmt, tuple(sh.rng.choice(ALPHABET) for _ in range(n)))
-        sh.sample({"kind": "soup", "format": FORMATS[fid], "tokens": ["--alpha", "", "-az", "--"]})
+        sh.sample({"kind": "soup", "format": FORMATS[fid], "tokens": ["--alpha", "", "-az"][: spec["maxlen"]]})
     else:
         ch = RandomChooser(sh.rng)
         n = 0
